@@ -198,3 +198,13 @@ claim('C03',
       'The file system is a stub with create / append / exists semantics (real OS permissions and concurrent writers are outside); re -> '
       'pathsym.symre; record arrays -> stand-in; the solver enumerates operation selectors (path feasibility) and decides the cell '
       'equalities over the symbolic characters. Histories longer than 3 steps are outside the bound.', 'DESIGN.md 4/C03')
+claim('C07',
+      'set_maskbits (raw yanny read of a definition file from the in-memory file system), sdss_flagval, sdss_flagname and sdss_flagexist are '
+      'executed with the bit numbers in the file symbolic decimal digits (one or two digits, distinct, 0..63, one label pinned to bit 63), '
+      'the letter case of queried group and label names symbolic per letter, and queried values with up to 1 (2 thorough) set bits at '
+      'solver-chosen positions: names -> value is exactly the OR of 2^bit; value -> names lists exactly the labels of the defined set bits '
+      'in ascending bit order; both round trips are identities on defined bits including bit 63; an alias behaves as its group; unknown '
+      'groups / labels raise KeyError exactly when a conversion needs them, a zero value names nothing in any group, and sdss_flagexist '
+      'reports without raising (per label when asked).',
+      'Label and group names are concrete identifiers (2-4 labels); the bit numbers are symbolic; re -> pathsym.symre; in-memory file system. '
+      'More than 4 labels per group and values with more than 2 arbitrary set bits are outside the bound.', 'DESIGN.md 4/C07')
